@@ -6,6 +6,6 @@ CONSTANTS
   BackoffCfgs <- BoCfgs
   Attempts <- BoAttempts
 INVARIANT TypeOK Returned NoLateContact
-PROPERTIES P_C17 P_C18
+PROPERTIES P_C17 P_C18 P_Strict
 CONSTRAINT EmitCase
 CHECK_DEADLOCK FALSE
